@@ -133,6 +133,9 @@ type syncOracle struct {
 	firstAdv map[string]string // snapshot key -> peer whose advertisement created the entry
 	flagged  map[string]bool   // arrivals already reported (index/body/sender)
 	live     bool              // fetcher goroutines deliver: arrivals are not journalled
+	escaped  map[string]bool   // advertised a snapshot the app answered REJECT_SENDER to, but had been
+	// removed from the pool (stopped by the switch) before the verdict was processed
+	stoppedNow map[string]bool // peers stopped since the last offer
 }
 
 func (o *syncOracle) advert(peer string, s snapT, res string) []core.Finding {
@@ -141,6 +144,8 @@ func (o *syncOracle) advert(peer string, s snapT, res string) []core.Finding {
 	if res == "true" {
 		o.firstAdv[k] = peer
 		switch {
+		case o.escaped[peer]:
+			fs = append(fs, fnd("syncer.SyncAny.reject-sender-misses-peer-removed-before-verdict", "snapshot %s advertised by %s entered the pool although the application had answered REJECT_SENDER to a snapshot only this peer had sent: the peer was removed from the pool (stopped) while the offer was being handled, so RejectPeer was never called for it", s, showName(peer)))
 		case o.blPeer[peer]:
 			fs = append(fs, fnd("pool.Add.accepts-snapshot-from-rejected-peer", "snapshot %s advertised by rejected peer %s entered the pool", s, showName(peer)))
 		case o.blFormat[s.f]:
@@ -214,6 +219,7 @@ func (o *syncOracle) run(out string) []core.Finding {
 			} else {
 				t.returned = map[uint32]bool{}
 			}
+			o.stoppedNow = map[string]bool{}
 			curSnap, curHash, haveOffer = snap, unhx(p[2]), true
 			accepted = p[3] == "accept"
 			lastApplyRes = ""
@@ -225,13 +231,20 @@ func (o *syncOracle) run(out string) []core.Finding {
 			verdict := p[3]
 			pendingEffects = func() {
 				switch verdict {
-				case "reject":
+				case "reject", "deadline":
 					o.blKey[k] = true
 				case "reject_format":
 					o.blFormat[curSnap.f] = true
 				case "reject_sender":
 					if a, ok := o.firstAdv[k]; ok && a != "" {
-						o.blPeer[a] = true
+						if o.stoppedNow[a] {
+							if o.escaped == nil {
+								o.escaped = map[string]bool{}
+							}
+							o.escaped[a] = true
+						} else {
+							o.blPeer[a] = true
+						}
 					}
 				}
 			}
@@ -269,7 +282,10 @@ func (o *syncOracle) run(out string) []core.Finding {
 			lastApplyRes = verdict
 			tt := t
 			pendingEffects = func() {
-				if verdict == "error" {
+				if verdict == "deadline" {
+					o.blKey[string(curSnap.preimage())] = true
+				}
+				if verdict == "error" || verdict == "deadline" {
 					return
 				}
 				for _, x := range refetch {
@@ -289,11 +305,28 @@ func (o *syncOracle) run(out string) []core.Finding {
 				}
 			}
 			lastInfo = ""
+		case "stop":
+			if pendingPre > 0 {
+				pendingPre--
+			}
+			if o.stoppedNow == nil {
+				o.stoppedNow = map[string]bool{}
+			}
+			if len(p) == 2 {
+				o.stoppedNow[name(p[1])] = true
+			}
+		case "rs":
+			if pendingPre > 0 {
+				pendingPre--
+			}
 		case "STALL":
 			fs = append(fs, fnd("syncer.fetchChunks.refetch-not-requested-again", "the restore was blocked on chunk %s for more than %v with fetcher goroutines configured: the chunk (discarded for refetching, or never fetched) was %s again", p[1], stallAfter, strings.Join(p[2:], ":")))
 		case "I":
 			lastInfo = ev
-		case "c":
+			if ev == "I:deadline" && haveOffer {
+				o.blKey[string(curSnap.preimage())] = true
+			}
+		case "c", "rc":
 			if eq < 0 {
 				continue
 			}
@@ -510,8 +543,99 @@ func lcpOracle(chain map[int64]oblock, op string, m map[string]string, out strin
 	return fs
 }
 
+// ---- reactor ----
+
+type reactorState struct {
+	snaps  []snapT
+	chunks map[string]string
+}
+
+// reactorOracle: what the property needs of Receive — an invalid message stops the peer and has
+// no other effect; only well-formed snapshots reach the pool; at most recentSnapshots snapshots are
+// advertised, newest first; a chunk request is answered with the application's bytes.
+func reactorOracle(op string, m map[string]string, out string, rs *reactorState) []core.Finding {
+	var fs []core.Finding
+	wm, ok := parseWire(m["m"])
+	if !ok || out == "bad-op" {
+		return nil
+	}
+	invalid := false
+	switch wm.kind {
+	case "S":
+		invalid = wm.h == 0 || len(wm.hash) == 0 || wm.c == 0
+	case "Q":
+		invalid = wm.h == 0
+	case "C":
+		// as decoded from the wire an empty chunk is nil
+		invalid = wm.h == 0 || (wm.missing && len(wm.body) > 0) || (!wm.missing && len(wm.body) == 0)
+	}
+	if invalid != (out == "stop") {
+		return []core.Finding{fnd("reactor.Receive.invalid-message-decision", "%s -> %s (message invalid: %v)", op, out, invalid)}
+	}
+	if out == "stop" {
+		return nil
+	}
+	kvs := map[string]string{}
+	for _, t := range strings.Fields(out) {
+		if i := strings.IndexByte(t, '='); i > 0 {
+			kvs[t[:i]] = t[i+1:]
+		}
+	}
+	for _, row := range semis(kvs["pool"]) {
+		if s, ok := parseSnapStr(row); ok && (s.h == 0 || len(s.hash) == 0 || s.c == 0) {
+			fs = append(fs, fnd("reactor.Receive.malformed-snapshot-reached-pool", "pool lists %s", row))
+		}
+	}
+	sent := commaList(kvs["sent"])
+	ch := m["ch"]
+	switch {
+	case wm.kind == "sq" && ch == "96":
+		if len(sent) > 10 {
+			fs = append(fs, fnd("reactor.Receive.advertises-more-than-recentSnapshots", "%d snapshots sent", len(sent)))
+		}
+		want := len(rs.snaps)
+		if want > 10 {
+			want = 10
+		}
+		if len(sent) != want {
+			fs = append(fs, fnd("reactor.Receive.snapshots-request-answer", "%d snapshots sent, the application has %d", len(sent), len(rs.snaps)))
+		}
+		prevH, prevF := uint64(1<<63), uint32(1<<31)
+		for _, t := range sent {
+			p := strings.Split(t, "/")
+			if len(p) != 6 || p[0] != "S" {
+				continue
+			}
+			h, f := u64(p[1]), u32(p[2])
+			if h > prevH || (h == prevH && f > prevF) {
+				fs = append(fs, fnd("reactor.Receive.snapshots-not-newest-first", "%s", kvs["sent"]))
+			}
+			prevH, prevF = h, f
+		}
+	case wm.kind == "Q" && ch == "97":
+		body, have := rs.chunks[fmt.Sprintf("%d:%d:%d", wm.h, wm.f, wm.i)]
+		if !have {
+			body = "nil"
+		}
+		mi := 0
+		if body == "nil" {
+			mi = 1
+		}
+		want := fmt.Sprintf("C/%d/%d/%d/%s/%d", wm.h, wm.f, wm.i, body, mi)
+		if len(sent) != 1 || sent[0] != want {
+			fs = append(fs, fnd("reactor.Receive.chunk-request-answer", "sent %s, the application's chunk is %s", kvs["sent"], body))
+		}
+	default:
+		if len(sent) != 0 {
+			fs = append(fs, fnd("reactor.Receive.unsolicited-reply", "%s -> %s", op, out))
+		}
+	}
+	return fs
+}
+
 func oracle(c core.Case, out []string) []core.Finding {
 	var fs []core.Finding
+	rstate := reactorState{chunks: map[string]string{}}
 	var lchainO map[int64]oblock
 	so := &syncOracle{env: map[uint64]envRow{}, blKey: map[string]bool{}, blFormat: map[uint32]bool{}, blPeer: map[string]bool{},
 		firstAdv: map[string]string{}, flagged: map[string]bool{}}
@@ -639,6 +763,20 @@ func oracle(c core.Case, out []string) []core.Finding {
 			for _, id := range commaList(out[i]) {
 				if pPeer[name(id)] {
 					fs = append(fs, fnd("pool.lists-rejected-peer", "rejected peer %s returned by GetPeers", id))
+				}
+			}
+		case "r.recv":
+			fs = append(fs, reactorOracle(op, m, out[i], &rstate)...)
+		case "r.app":
+			rstate.snaps, rstate.chunks = nil, map[string]string{}
+			for _, t := range semis(m["snaps"]) {
+				if s, ok := parseSnapStr(t); ok {
+					rstate.snaps = append(rstate.snaps, s)
+				}
+			}
+			for _, t := range commaList(m["chunks"]) {
+				if p := strings.Split(t, ":"); len(p) == 4 {
+					rstate.chunks[p[0]+":"+p[1]+":"+p[2]] = p[3]
 				}
 			}
 		// syncer stream
